@@ -3,6 +3,7 @@ package h6net
 import (
 	"testing"
 
+	"github.com/apmckinlay/gsuneido/core"
 	"github.com/apmckinlay/gsuneido/options"
 
 	"verifsim/hkit"
@@ -20,7 +21,12 @@ func TestSim(t *testing.T) {
 			c.AdvanceNum, c.AdvanceDen = 1, 500
 			return c
 		},
-		Main:       Run,
+		Main: Run,
+		Warmup: func(string) {
+			for _, n := range []string{"s0", "s1", "s2", "s3", "users", "data", "hacked"} {
+				core.Global.FindName(nil, "Trigger_"+n)
+			}
+		},
 		WarmupRuns: 4,
 	})
 }
